@@ -1,15 +1,19 @@
 PROP = {
     "level": "proof",
-    "legs": ["c19-escape", "c19-literal"],
-    "trusted_base": TB_COMMON + ["oracles unicode.IsPrint and syntax.IsWordChar: universally quantified in the theorem; the single hypothesis (metacharacters are not word characters) is checked against the running Go toolchain by leg c19-escape"],
+    "legs": ["c19-escape", "c19-literal", "c19-parse"],
+    "trusted_base": TB_COMMON + [
+        "oracles unicode.IsPrint, syntax.IsWordChar, unicode.ToLower, unicode.SimpleFold, participatesInCaseConversion and the case-equivalence sets: universally quantified in the theorems; the hypotheses used (metacharacters are not word characters; IsPrint is false on TAB LF VT FF CR, needed under IgnorePatternWhitespace only) are checked against the running Go toolchain by legs c19-escape and c19-parse",
+        "tools/gen/parselit.go: reads _category, the constants Q S Z X E, the bound/operator/threshold of isSpace/isSpecial/isStopperX/isQuantifier, the single-character escapes and scanHex digit counts of scanCharEscape and the case-label sets of scanBackslash from syntax/parser.go into Gen/ParseLitGen.v; exits non-zero on any other shape",
+    ],
     "assumptions": ASSUME_COMMON + [
-        "modelled: syntax/escape.go Escape/escape/Unescape and parser.go scanCharEscape/scanHex/scanHexUntilBrace/scanOctal/scanControl under the zero-option parser Unescape uses",
-        "not modelled: the literal-run scanner of the full pattern parser; the 'Escape(s) compiles to a literal' half is exercised by leg c19-literal (sampled), not proved",
+        "modelled: syntax/escape.go Escape/escape/Unescape; parser.go countCaptures + scanRegex on the fragment {ordinary characters, x-mode blanks and # comments, backslash escapes} with scanBlank, isTrueQuantifier, addToConcatenate, scanBackslash, scanBasicBackslash (back-references against the capture table {0}), scanCharEscape/scanHex/scanHexUntilBrace/scanOctal/scanControl under the options IgnoreCase, IgnorePatternWhitespace, ECMAScript, RE2, Unicode (other option bits only travel in the node options); tree.go newRegexNodeCh/nodeWithCaseConversion, reduce, reduceConcatenation (adjacent equal sets -> Setloop{k,k}, adjacent One/Multi -> Multi) and the root capture (Model/ParseLit.v); the reference semantics of the resulting tree is Model/Spec.v",
+        "outside the parser model (the model answers POutside, never a guess): any unescaped ( ) [ * + ? | ^ $ . and a '{' that is a true quantifier, \\p \\P, ECMAScript group names, RightToLeft; 'Escape(s) compiles to a literal' under RightToLeft is sampled by leg c19-literal; the link tree -> compiled program -> interpreter is C01's",
+        "not distinguished by the comparison: Setloop vs Setloopatomic of a {k,k} set loop (findAndMakeLoopsAtomic / eliminateEndingBacktracking are not part of this model)",
     ],
 }
 TEXT = {
-    "text": "Theorem C19_unescape_escape: for every string of valid Unicode scalars and every IsPrint oracle, the model's Unescape(Escape s) = s (induction over the string, no bound on length); C19_meta_table_ok re-checks the metacharacter table generated from escape.go. The model is tied to the code by 40k+ differential cases per run (Escape and Unescape outputs, including malformed escapes), and the literal-pattern half is sampled against the real compiler.",
+    "text": "C19_unescape_escape: for every string of valid Unicode scalars and every IsPrint oracle, Unescape(Escape s) = s. C19_escape_parses_to_literal: for every such s and every option set without IgnoreCase/RightToLeft (default, IgnorePatternWhitespace, ECMAScript, RE2, Unicode, Multiline, Singleline, ExplicitCapture, combined), the parser model maps Escape(s) to Capture0 over exactly the literal s; C19_anchored_escape_parses + C19_escape_matches_only_s: \\A Escape(s) \\z parses to Concat[Beginning; literal s; End] and the reference semantics of that tree finds a match in a text t iff t = s; C19_parse_lit_total: the parser fragment never faults or hangs on any rune string under any option set; C19_category_table_ok / C19_meta_table_ok: obligations on the tables generated from parser.go and escape.go; C19_escape_ignorecase_refuted: under IgnoreCase the tree is (as intended) not the literal. The parser model is compared with syntax.Parse on every run (error kind and final tree with node options, 16 option sets, every escape form and error kind gated).",
     "design_ref": "DESIGN.md §4 C19",
-    "note": "Coq kernel; no axioms; oracle hypothesis meta_not_word checked at run time; the statement 'Escape(s) compiles to a literal under every option set' is sampled (leg c19-literal), not proved.",
-    "technique": "Coq proof (induction) over executable model + differential correspondence via extraction",
+    "note": "Coq kernel; no axioms; oracle hypotheses checked at run time against the Go toolchain; RightToLeft and the tree->program->interpreter link are not part of these theorems (c19-literal samples the real engine end to end under RightToLeft and the dialect options).",
+    "technique": "Coq proofs (induction over the string / fuel-free totality) over executable models generated in part from the source + differential correspondence via extraction",
 }
